@@ -379,7 +379,9 @@ func (e *Engine) errIs(h map[string]*Term, a, b IfaceV, depth int) *Term {
 	return And(nonNil, Or(cases...))
 }
 
-func knownNotTag(tag, want *Term) bool { return tag.IsInt() && want.IsInt() && tag.Int.Cmp(want.Int) != 0 }
+func knownNotTag(tag, want *Term) bool {
+	return tag.IsInt() && want.IsInt() && tag.Int.Cmp(want.Int) != 0
+}
 
 // errnoIs mirrors syscall.Errno.Is on linux (audited against the real method).
 func (e *Engine) errnoIs(errno *Term, target IfaceV) *Term {
